@@ -172,6 +172,11 @@ func orDeepLookup(p []orStep, t interface{}) (interface{}, bool) {
 	return v, true
 }
 
+// orStepsRelated: p (a leaf of the earlier result) is above, below or equal to the named
+// path q — or the two part at a point where p goes on with a list index and q with a table
+// key (or the other way round): the container there is then of the wrong kind for q, and
+// setting q replaces it as a whole (strvals: "indices out of order. Initialize empty value"
+// turns a list element that is not a table into one), so what was below it is not "another path".
 func orStepsRelated(p, q []orStep) bool {
 	n := len(p)
 	if len(q) < n {
@@ -179,7 +184,7 @@ func orStepsRelated(p, q []orStep) bool {
 	}
 	for i := 0; i < n; i++ {
 		if p[i] != q[i] {
-			return false
+			return p[i].Is != q[i].Is
 		}
 	}
 	return true
